@@ -18,6 +18,11 @@
      Atomic m w h  atomic inline (inline-block) of margin-box width w, height h, child of a
                    box whose white-space is m
      Hard          forced line break (<br>, or a preserved newline)
+     EB            emergency break opportunity: the boundary between two glyphs of an otherwise
+                   unbreakable sequence inside text whose overflow-wrap is anywhere | break-word
+                   (and whose white-space wraps).  Zero width, invisible.  CSS Text 3, 5.5: "an
+                   otherwise unbreakable sequence of characters may be broken at an arbitrary
+                   point if there are no otherwise-acceptable break points in the line"
    lengths are integers in one common unit (px for the Ahem stream, 1/1024 px = Pango
    units for the real-font monitor).
 
@@ -26,7 +31,9 @@
      fill              inline.go:833-946 (children loop), :708-777 (breakWaitingChildren), :141-214
      lw / trimming     inline.go:246-303 skipFirstWhitespace, :307-370 removeLastWhitespace
      place             inline.go:1383-1487 textAlign/justifyLine/addWordSpacing, :94-97,148 text-indent
-     line_extent       inline.go:1223-1381 lineBoxVerticality, text/text.go:128-171 StrutLayout *)
+     line_extent       inline.go:1223-1381 lineBoxVerticality, text/text.go:128-171 StrutLayout
+     chop / fill_e     text/engine_pango.go:843-864 (step 5: break the word if it is too long for
+                       the line and the text starts the line), inline.go:623 isLineStart *)
 From Coq Require Import List ZArith QArith Qminmax Bool.
 Import ListNotations.
 Open Scope Z_scope.
@@ -48,7 +55,8 @@ Inductive item :=
 | Open (e : Z)
 | Close (e : Z)
 | Atomic (m : mode) (w h : Z)
-| Hard.
+| Hard
+| EB.
 
 Notation lunit := (list item) (only parsing).   (* a unit: items between two consecutive break opportunities *)
 
@@ -57,12 +65,13 @@ Definition is_close (i : item) := match i with Close _ => true | _ => false end.
 Definition is_edge (i : item) := match i with Open _ | Close _ => true | _ => false end.
 Definition is_hard (i : item) := match i with Hard => true | _ => false end.
 Definition is_space (i : item) := match i with Space _ _ => true | _ => false end.
+Definition is_eb (i : item) := match i with EB => true | _ => false end.
 
-(* nearest content item (not an inline-box edge) *)
+(* nearest content item (not an inline-box edge, not an emergency break opportunity) *)
 Fixpoint content (l : list item) : option item :=
   match l with
   | [] => None
-  | i :: r => if is_edge i then content r else Some i
+  | i :: r => if is_edge i || is_eb i then content r else Some i
   end.
 
 (* is there a Word / Atomic / preserved space before (list given backwards) since the last
@@ -144,7 +153,7 @@ Definition wstep (s : wst) (i : item) : wst :=
       else if hangs m then mkW (acc s) (pend s + w) (solid s)
       else mkW (acc s + pend s + w) 0 true
   | Open e | Close e => mkW (acc s + e) (pend s) (solid s)
-  | Hard => s
+  | Hard | EB => s
   end.
 
 Definition lw_from (s : wst) (l : list item) : Z := acc (fold_left wstep l s).
@@ -169,6 +178,68 @@ Definition break_lines (avail indent : Z) (items : list item) : list (list lunit
   fill avail (avail - indent) [] (units items).
 
 Definition flat (ls : list (list lunit)) : list (list item) := map (@concat item) ls.
+
+(* ---- overflow-wrap: anywhere | break-word.  A unit that holds emergency break
+   opportunities is made of PIECES (what lies between consecutive EB positions; the EB ends
+   its piece; an inline-box edge sticks to its content here too).  A piece carries a tag:
+   true = a regular break opportunity (cut_b) precedes it (it starts a unit), false = only an
+   emergency opportunity precedes it.  A line is a list of tagged pieces. *)
+Definition ecut_b (pre suf : list item) : bool :=
+  match pre, suf with
+  | EB :: p :: _, s :: _ => negb (is_open p) && negb (is_close s)
+  | _, _ => false
+  end.
+
+Definition pieces (u : lunit) : list lunit := seg ecut_b [] [] u.
+
+Notation tpiece := (bool * list item)%type (only parsing).
+
+Definition tag_pieces (ps : list lunit) : list tpiece :=
+  match ps with
+  | [] => []
+  | p :: r => (true, p) :: map (pair false) r
+  end.
+
+Definition tpieces (u : lunit) : list tpiece := tag_pieces (pieces u).
+
+Definition cat (l : list tpiece) : list item := concat (map snd l).
+
+(* the tagged pieces of the whole inline content *)
+Definition tsub (items : list item) : list tpiece := concat (map tpieces (units items)).
+
+(* a unit that starts a line and does not fit is broken at its emergency opportunities,
+   greedily: pieces are taken while they fit, at least one per line.  Returns the completed
+   lines, the line being filled and its room. *)
+Fixpoint chop (avail av : Z) (cur : list tpiece) (ps : list tpiece)
+  : list (list tpiece) * list tpiece * Z :=
+  match ps with
+  | [] => ([], cur, av)
+  | p :: r =>
+      if is_nil cur || (lw (cat cur ++ snd p) <=? av) then chop avail av (cur ++ [p]) r
+      else let '(ls, c, a) := chop avail avail [p] r in (cur :: ls, c, a)
+  end.
+
+(* greedy first fit over units, a unit being broken at its emergency opportunities only when
+   it starts a line (no other break opportunity on that line) *)
+Fixpoint fill_e (avail av : Z) (cur : list tpiece) (us : list lunit) : list (list tpiece) :=
+  match us with
+  | [] => match cur with [] => [] | _ => [cur] end
+  | u :: r =>
+      let start := fun (a : Z) =>
+        let '(ls, c, a') := chop avail a [] (tpieces u) in
+        if ends_hard u then ls ++ c :: fill_e avail avail [] r
+        else ls ++ fill_e avail a' c r in
+      if is_nil cur then start av
+      else if lw (cat cur ++ u) <=? av then
+        (if ends_hard u then (cur ++ tpieces u) :: fill_e avail avail [] r
+         else fill_e avail av (cur ++ tpieces u) r)
+      else cur :: start avail
+  end.
+
+Definition break_lines_e (avail indent : Z) (items : list item) : list (list tpiece) :=
+  fill_e avail (avail - indent) [] (units items).
+
+Definition flat_e (ls : list (list tpiece)) : list (list item) := map cat ls.
 
 (* ---- what is left of a line once the spaces at its edges are removed *)
 Definition stops_trim (i : item) : bool :=
@@ -209,7 +280,7 @@ Inductive frag := FT (x w : Q) | FA (x w : Q).    (* text fragment / atomic box 
 Definition iw (i : item) : Z :=
   match i with
   | Word w | Space _ w | Open w | Close w | Atomic _ w _ => w
-  | Hard => 0
+  | Hard | EB => 0
   end.
 
 Definition sumw (l : list item) : Z := fold_right (fun i a => iw i + a) 0 l.
@@ -251,7 +322,21 @@ Fixpoint walk (emv : Z) (extra : Q) (x : Q) (run : option (Q * Q)) (l : list ite
   | Open e :: r | Close e :: r => flush ++ walk emv extra (x + zq e) None r
   | Atomic _ w _ :: r => flush ++ FA x (zq w) :: walk emv extra (x + zq w) None r
   | Hard :: r => flush ++ walk emv extra x None r
+  | EB :: r => walk emv extra x run r      (* invisible: the glyphs around it are one text run *)
   end.
+
+(* total advance of a placed line: widths plus the widening of every space glyph *)
+Definition advance (emv : Z) (extra : Q) (v : list item) : Q :=
+  zq (sumw v) + zq (nspaces emv v) * extra.
+
+(* the line box itself: it starts at the alignment offset and holds the text-indent and
+   the content (inline.go:155-178: line.Width after removeLastWhitespace / justification,
+   translated by textAlign's offset) *)
+Definition line_box (c : cfg) (first last : bool) (l : list item) : Q * Q :=
+  let ind := if first then indent c else 0%Z in
+  let v := trim_line l in
+  let '(off, extra) := align_params c ind last v in
+  (x0 c + off, zq ind + advance (em c) extra v).
 
 Definition place (c : cfg) (first last : bool) (l : list item) : list frag :=
   let ind := if first then indent c else 0%Z in
@@ -277,18 +362,36 @@ Definition line_extent (c : cfg) (l : list item) : Q * Q :=
 Definition line_height (c : cfg) (l : list item) : Q :=
   let tb := line_extent c l in snd tb - fst tb.
 
-Record oline := mkLine { oy : Q; oh : Q; ofr : list frag }.
+Record oline := mkLine { oy : Q; oh : Q; ox : Q; ow : Q; ofr : list frag }.
 
+(* CSS 2.1 9.4.2: "line boxes that contain no text, no preserved white space, no inline
+   elements with non-zero margins, padding, or borders, and no other in-flow content must be
+   treated as zero-height [...] and must be treated as not existing for any other purpose":
+   a line holding only collapsible spaces (removed) and empty edges is no line *)
+Definition phantom_item (i : item) : bool :=
+  match i with
+  | Word _ | Atomic _ _ _ | Hard => false
+  | Space m _ => collapses m
+  | Open e | Close e => (e =? 0)%Z
+  | EB => true
+  end.
+Definition phantom (l : list item) : bool := forallb phantom_item l.
+
+(* the line is the last one of the block (nothing but phantom lines follows) or ends with a
+   forced break: it is not justified *)
 Definition line_last (l : list item) (rest : list (list item)) : bool :=
-  is_nil rest || existsb is_hard l.
+  forallb phantom rest || existsb is_hard l.
 
 Fixpoint stack (c : cfg) (first : bool) (y : Q) (ls : list (list item)) : list oline :=
   match ls with
   | [] => []
   | l :: r =>
+      if phantom l then stack c first y r
+      else
       let h := line_height c l in
-      mkLine y h (place c first (line_last l r) l) :: stack c false (y + h) r
+      let b := line_box c first (line_last l r) l in
+      mkLine y h (fst b) (snd b) (place c first (line_last l r) l) :: stack c false (y + h) r
   end.
 
 Definition layout (c : cfg) (items : list item) : list oline :=
-  stack c true (y0 c) (flat (break_lines (avail c) (indent c) items)).
+  stack c true (y0 c) (flat_e (break_lines_e (avail c) (indent c) items)).
